@@ -12,6 +12,9 @@ def run(case):
         else:
             b = grex.RegExpBuilder(case["tcs"])
         for call in case.get("calls", []):
+            if call[0] == "build":
+                b.build()  # intermediate build: its result is not used, only its side effects matter
+                continue
             r = getattr(b, call[0])(*call[1:])
             if case.get("chain", True):
                 b = r
